@@ -178,10 +178,17 @@ func (m *monitor) filter(update database.Update) ovsdb.TableUpdates {
 			case ru.Delete() && sel.Delete():
 				ru.New = filterColumns(ru.New, cols)
 				ru.Old = filterColumns(ru.Old, cols)
+				if ru.Modify() && ru2.Modify != nil && len(*filterColumns(ru2.Modify, cols)) == 0 {
+					// none of the monitored columns changed
+					return nil
+				}
 				tu[uuid] = ru
 			}
 			return nil
 		})
+		if len(tu) == 0 {
+			continue
+		}
 		tus[table] = tu
 	}
 	return tus
@@ -225,10 +232,17 @@ func (m *monitor) filter2(update database.Update) ovsdb.TableUpdates2 {
 				ru2.Insert = filterColumns(ru2.Insert, cols)
 				ru2.Modify = filterColumns(ru2.Modify, cols)
 				ru2.Delete = filterColumns(ru2.Delete, cols)
+				if ru2.Insert == nil && ru2.Delete == nil && ru2.Modify != nil && len(*ru2.Modify) == 0 {
+					// none of the monitored columns changed
+					return nil
+				}
 				tu2[uuid] = &ru2
 			}
 			return nil
 		})
+		if len(tu2) == 0 {
+			continue
+		}
 		tus2[table] = tu2
 	}
 	return tus2
